@@ -1,13 +1,14 @@
 #!/bin/bash
-# tools/try_seed.sh <patch file> [props...]   -- apply a seeded change to /repo, run the quick checks, restore /repo
+# tools/try_seed.sh <patch file> [props...]   -- apply a seeded change to a scratch copy of /repo (never to /repo itself), run the quick checks on it
 set -u
-patch="$1"; shift
+patch="$(readlink -f "$1")"; shift
 props="${*:-C01 C02 C03 C04 C05 C06 C07 C08 C09 C10 C11 C12 C13 C14 C15 C16 C17 C18 C19 C20}"
-cd /repo || exit 2
-if [ -n "$(git status --porcelain --untracked-files=no)" ]; then echo "/repo not clean"; exit 2; fi
-git apply "$patch" || { echo "patch does not apply"; exit 2; }
+base=/dev/shm; [ -w "$base" ] || base=/var/tmp
+wt=$(mktemp -d "$base/pvx_scratch_XXXXXX") || exit 2
+trap 'rm -rf "$wt"' EXIT
+cp -r /repo/pyrex /repo/setup.py "$wt"/ && find "$wt" -name __pycache__ -prune -exec rm -rf {} +
+( cd "$wt" && git apply --include='pyrex/*' --include=setup.py "$patch" ) || { echo "patch does not apply"; exit 2; }
 for p in $props; do
-  out=$(/verif/check $p --tier quick --no-evidence 2>&1); rc=$?
+  out=$(PVX_ROOT="$wt" /verif/check $p --tier quick --no-evidence 2>&1); rc=$?
   if [ $rc -ne 0 ]; then echo "== $p exit $rc"; echo "$out" | grep -E "rule=|obligation:|found:|ANALYSIS-ERROR" | head -12; fi
 done
-git checkout -- . ; echo "restored: $(git status --porcelain --untracked-files=no | wc -l) dirty files"
